@@ -154,9 +154,26 @@ Lemma_DrawAbstraction ==
   Active => \A j \in 1..NObj : \A r \in Draws :
      Chk(Hint, OSeq[j], r, Conf0) = Chk(Hint, OSeq[j], r + 7 * Lcm, Conf0)
 
-\* size stretching (DESIGN 3.5): both verdict classes are closed under replicating items
 Stretch(x) == IF x.k = "cont" /\ x.cls \in SeqCls \cup {"UColl", "dict_values"}
               THEN [x EXCEPT !.items = x.items \o x.items] ELSE x
+\* C09: the number of items read is bounded by a constant fixed by the hint alone - also for
+\* the doubled (stretched) object - and equals the model's verdict
+C09_ReadBound ==
+  Active => \A ci \in {1, 2} : \A j \in 1..NObj : \A r \in Draws :
+     LET hp == Pub(Hint, Confs[ci])
+         e  == Ev(hp, OSeq[j], r, Confs[ci])
+         e2 == Ev(hp, Stretch(OSeq[j]), r, Confs[ci]) IN
+     /\ e.rd <= ReadBound(hp) /\ e.ln <= LenBound(hp) /\ e.it <= ReadBound(hp)
+     /\ e2.rd <= ReadBound(hp) /\ e2.ln <= LenBound(hp)
+     /\ e.ok = Chk(Hint, OSeq[j], r, Confs[ci])
+\* C10: no forbidden operation (nothing at all happens to iterables that are not collections)
+C10_NoForbiddenOp ==
+  Active => \A j \in 1..NObj : \A r \in Draws :
+     LET e == Ev(Hint, OSeq[j], r, Conf0) IN
+     /\ e.bad = 0
+     /\ (OSeq[j].k = "iter") => (e.rd = 0 /\ e.ln = 0 /\ e.it = 0)
+
+\* size stretching (DESIGN 3.5): both verdict classes are closed under replicating items
 Lemma_StretchClosure ==
   (Active /\ Hint.k \in {"seq", "reit", "quasi"}) => \A j \in 1..NObj :
      /\ Sat(Hint, OSeq[j]) => Sat(Hint, Stretch(OSeq[j]))
